@@ -83,6 +83,12 @@ pub struct World {
     /// connections made from now on get a 4 KiB kernel send buffer on the client's end: a write of a 16 KiB message is
     /// then accepted in parts (as on any TCP connection to a slow or distant reader)
     pub small_sndbuf: bool,
+    /// the manager task is not scheduled for the moment: commands stay in the session's real (bounded) channel, senders
+    /// feel its back-pressure; nothing is answered until this is cleared again
+    pub manager_stalled: bool,
+    /// remote ends that do not read for the moment (a slow or stalled remote): what the client writes stays in the
+    /// kernel's buffers, its writes block once they are full
+    pub not_reading: std::collections::BTreeSet<usize>,
     next_peer: usize,
 }
 
@@ -104,6 +110,8 @@ impl World {
             close_on_piece_done: None,
             frozen: std::collections::BTreeSet::new(),
             small_sndbuf: false,
+            manager_stalled: false,
+            not_reading: std::collections::BTreeSet::new(),
             next_peer: 0,
         }
     }
@@ -264,7 +272,11 @@ impl World {
     fn drain_sockets(&mut self) -> bool {
         let now = self.now();
         let mut progress = false;
-        for conn in self.conns.iter_mut() {
+        let not_reading = self.not_reading.clone();
+        for (ci, conn) in self.conns.iter_mut().enumerate() {
+            if not_reading.contains(&ci) {
+                continue;
+            }
             if let Some(sock) = conn.sock.as_mut() {
                 let mut buf = [0u8; 65536];
                 loop {
@@ -356,11 +368,13 @@ impl World {
             if self.poll_handlers(cx) {
                 completed = true;
             }
-            while let Some(cmd) = self.session.verif_try_recv_peer_cmd() {
-                self.pending.push_back(cmd);
-            }
-            if !self.pending.is_empty() {
-                return Poll::Ready(None);
+            if !self.manager_stalled {
+                while let Some(cmd) = self.session.verif_try_recv_peer_cmd() {
+                    self.pending.push_back(cmd);
+                }
+                if !self.pending.is_empty() {
+                    return Poll::Ready(None);
+                }
             }
             match fut.as_mut().poll(cx) {
                 Poll::Ready(v) => Poll::Ready(Some(v)),
@@ -392,7 +406,7 @@ impl World {
 
     async fn drain_cmds(&mut self) -> bool {
         let mut any = false;
-        while self.manager_dead.is_none() {
+        while self.manager_dead.is_none() && !self.manager_stalled {
             let cmd = match self.pending.pop_front().or_else(|| self.session.verif_try_recv_peer_cmd()) {
                 Some(c) => c,
                 None => break,
@@ -471,6 +485,32 @@ impl World {
         active |= self.flush_out();
         active |= self.activity.get() != act0;
         active
+    }
+
+    /// Poll every connection task once (without waiting for quiescence and without letting time pass), answer the
+    /// manager commands they sent and read what they wrote. For schedules with a remote that never stops writing, where
+    /// no quiescent state exists; the caller moves the clock itself (`tokio::time::advance`).
+    pub async fn poll_once(&mut self) {
+        self.poll_once_with_budget(128).await
+    }
+
+    /// Like `poll_once`, but the connection tasks get only `budget` units of tokio's cooperative-scheduling budget (a
+    /// task has 128 per poll in production; every socket read that returns data costs one). A task whose socket always
+    /// has more to read ends its poll when the budget is used up, not when the socket is empty; a small budget shows
+    /// that situation with kilobytes instead of megabytes of traffic per poll.
+    pub async fn poll_once_with_budget(&mut self, budget: u32) {
+        for _ in budget.min(128)..128 {
+            tokio::task::coop::consume_budget().await;
+        }
+        std::future::poll_fn(|cx| {
+            self.poll_handlers(cx);
+            Poll::Ready(())
+        })
+        .await;
+        self.drain_cmds().await;
+        self.drain_sockets();
+        // give the cooperative-scheduling budget back: the next poll starts afresh
+        tokio::task::yield_now().await;
     }
 
     /// Quiescence barrier: returns when three consecutive rounds saw no activity.
